@@ -283,33 +283,33 @@ pub proof fn axiom_lower_nonempty(c: char)
 // ---- unit T.wk.RepositoryUrl  <= purl/src/qualifiers/well_known.rs:28 ----
 pub struct RepositoryUrl<'a>(pub &'a str);
 // ---- unit U-wk.RepositoryUrl.as_ref  <= purl/src/qualifiers/well_known.rs:31 ----
-pub fn wk_repository_url_as_ref<'a>(this: &RepositoryUrl<'a>) -> (r: &'a str)
+pub fn wk_repositoryurl_as_ref<'a>(this: &RepositoryUrl<'a>) -> (r: &'a str)
     ensures r@ == this.0@
 {
                 this.0
             }
 // ---- unit U-wk.RepositoryUrl.into_str  <= purl/src/qualifiers/well_known.rs:37 ----
-pub fn wk_repository_url_into_str<'a>(value: RepositoryUrl<'a>) -> (r: &'a str)
+pub fn wk_repositoryurl_into_str<'a>(value: RepositoryUrl<'a>) -> (r: &'a str)
     ensures r@ == value.0@
 {
                 value.0
             }
 // ---- unit U-wk.RepositoryUrl.from_str  <= purl/src/qualifiers/well_known.rs:43 ----
-pub fn wk_repository_url_from_str<'a>(value: &'a str) -> (r: RepositoryUrl<'a>)
+pub fn wk_repositoryurl_from_str<'a>(value: &'a str) -> (r: RepositoryUrl<'a>)
     ensures r.0@ == value@
 {
                 RepositoryUrl(value)
             }
 // ---- unit U-wk.RepositoryUrl.into_string  <= purl/src/qualifiers/well_known.rs:49 ----
-pub fn wk_repository_url_into_string<'a>(value: RepositoryUrl<'a>) -> (r: SmallString)
+pub fn wk_repositoryurl_into_string<'a>(value: RepositoryUrl<'a>) -> (r: SmallString)
     ensures r@ == value.0@
 {
     proof { axiom_string_from(); }
 
-                SmallString::from(wk_repository_url_into_str(value))
+                SmallString::from(wk_repositoryurl_into_str(value))
             }
 // ---- unit U-wk.RepositoryUrl.deref  <= purl/src/qualifiers/well_known.rs:57 ----
-pub fn wk_repository_url_deref<'a>(this: &RepositoryUrl<'a>) -> (r: &'a str)
+pub fn wk_repositoryurl_deref<'a>(this: &RepositoryUrl<'a>) -> (r: &'a str)
     ensures r@ == this.0@
 {
                 this.0
@@ -317,33 +317,33 @@ pub fn wk_repository_url_deref<'a>(this: &RepositoryUrl<'a>) -> (r: &'a str)
 // ---- unit T.wk.DownloadUrl  <= purl/src/qualifiers/well_known.rs:28 ----
 pub struct DownloadUrl<'a>(pub &'a str);
 // ---- unit U-wk.DownloadUrl.as_ref  <= purl/src/qualifiers/well_known.rs:31 ----
-pub fn wk_download_url_as_ref<'a>(this: &DownloadUrl<'a>) -> (r: &'a str)
+pub fn wk_downloadurl_as_ref<'a>(this: &DownloadUrl<'a>) -> (r: &'a str)
     ensures r@ == this.0@
 {
                 this.0
             }
 // ---- unit U-wk.DownloadUrl.into_str  <= purl/src/qualifiers/well_known.rs:37 ----
-pub fn wk_download_url_into_str<'a>(value: DownloadUrl<'a>) -> (r: &'a str)
+pub fn wk_downloadurl_into_str<'a>(value: DownloadUrl<'a>) -> (r: &'a str)
     ensures r@ == value.0@
 {
                 value.0
             }
 // ---- unit U-wk.DownloadUrl.from_str  <= purl/src/qualifiers/well_known.rs:43 ----
-pub fn wk_download_url_from_str<'a>(value: &'a str) -> (r: DownloadUrl<'a>)
+pub fn wk_downloadurl_from_str<'a>(value: &'a str) -> (r: DownloadUrl<'a>)
     ensures r.0@ == value@
 {
                 DownloadUrl(value)
             }
 // ---- unit U-wk.DownloadUrl.into_string  <= purl/src/qualifiers/well_known.rs:49 ----
-pub fn wk_download_url_into_string<'a>(value: DownloadUrl<'a>) -> (r: SmallString)
+pub fn wk_downloadurl_into_string<'a>(value: DownloadUrl<'a>) -> (r: SmallString)
     ensures r@ == value.0@
 {
     proof { axiom_string_from(); }
 
-                SmallString::from(wk_download_url_into_str(value))
+                SmallString::from(wk_downloadurl_into_str(value))
             }
 // ---- unit U-wk.DownloadUrl.deref  <= purl/src/qualifiers/well_known.rs:57 ----
-pub fn wk_download_url_deref<'a>(this: &DownloadUrl<'a>) -> (r: &'a str)
+pub fn wk_downloadurl_deref<'a>(this: &DownloadUrl<'a>) -> (r: &'a str)
     ensures r@ == this.0@
 {
                 this.0
@@ -351,33 +351,33 @@ pub fn wk_download_url_deref<'a>(this: &DownloadUrl<'a>) -> (r: &'a str)
 // ---- unit T.wk.VcsUrl  <= purl/src/qualifiers/well_known.rs:28 ----
 pub struct VcsUrl<'a>(pub &'a str);
 // ---- unit U-wk.VcsUrl.as_ref  <= purl/src/qualifiers/well_known.rs:31 ----
-pub fn wk_vcs_url_as_ref<'a>(this: &VcsUrl<'a>) -> (r: &'a str)
+pub fn wk_vcsurl_as_ref<'a>(this: &VcsUrl<'a>) -> (r: &'a str)
     ensures r@ == this.0@
 {
                 this.0
             }
 // ---- unit U-wk.VcsUrl.into_str  <= purl/src/qualifiers/well_known.rs:37 ----
-pub fn wk_vcs_url_into_str<'a>(value: VcsUrl<'a>) -> (r: &'a str)
+pub fn wk_vcsurl_into_str<'a>(value: VcsUrl<'a>) -> (r: &'a str)
     ensures r@ == value.0@
 {
                 value.0
             }
 // ---- unit U-wk.VcsUrl.from_str  <= purl/src/qualifiers/well_known.rs:43 ----
-pub fn wk_vcs_url_from_str<'a>(value: &'a str) -> (r: VcsUrl<'a>)
+pub fn wk_vcsurl_from_str<'a>(value: &'a str) -> (r: VcsUrl<'a>)
     ensures r.0@ == value@
 {
                 VcsUrl(value)
             }
 // ---- unit U-wk.VcsUrl.into_string  <= purl/src/qualifiers/well_known.rs:49 ----
-pub fn wk_vcs_url_into_string<'a>(value: VcsUrl<'a>) -> (r: SmallString)
+pub fn wk_vcsurl_into_string<'a>(value: VcsUrl<'a>) -> (r: SmallString)
     ensures r@ == value.0@
 {
     proof { axiom_string_from(); }
 
-                SmallString::from(wk_vcs_url_into_str(value))
+                SmallString::from(wk_vcsurl_into_str(value))
             }
 // ---- unit U-wk.VcsUrl.deref  <= purl/src/qualifiers/well_known.rs:57 ----
-pub fn wk_vcs_url_deref<'a>(this: &VcsUrl<'a>) -> (r: &'a str)
+pub fn wk_vcsurl_deref<'a>(this: &VcsUrl<'a>) -> (r: &'a str)
     ensures r@ == this.0@
 {
                 this.0
@@ -385,33 +385,33 @@ pub fn wk_vcs_url_deref<'a>(this: &VcsUrl<'a>) -> (r: &'a str)
 // ---- unit T.wk.FileName  <= purl/src/qualifiers/well_known.rs:28 ----
 pub struct FileName<'a>(pub &'a str);
 // ---- unit U-wk.FileName.as_ref  <= purl/src/qualifiers/well_known.rs:31 ----
-pub fn wk_file_name_as_ref<'a>(this: &FileName<'a>) -> (r: &'a str)
+pub fn wk_filename_as_ref<'a>(this: &FileName<'a>) -> (r: &'a str)
     ensures r@ == this.0@
 {
                 this.0
             }
 // ---- unit U-wk.FileName.into_str  <= purl/src/qualifiers/well_known.rs:37 ----
-pub fn wk_file_name_into_str<'a>(value: FileName<'a>) -> (r: &'a str)
+pub fn wk_filename_into_str<'a>(value: FileName<'a>) -> (r: &'a str)
     ensures r@ == value.0@
 {
                 value.0
             }
 // ---- unit U-wk.FileName.from_str  <= purl/src/qualifiers/well_known.rs:43 ----
-pub fn wk_file_name_from_str<'a>(value: &'a str) -> (r: FileName<'a>)
+pub fn wk_filename_from_str<'a>(value: &'a str) -> (r: FileName<'a>)
     ensures r.0@ == value@
 {
                 FileName(value)
             }
 // ---- unit U-wk.FileName.into_string  <= purl/src/qualifiers/well_known.rs:49 ----
-pub fn wk_file_name_into_string<'a>(value: FileName<'a>) -> (r: SmallString)
+pub fn wk_filename_into_string<'a>(value: FileName<'a>) -> (r: SmallString)
     ensures r@ == value.0@
 {
     proof { axiom_string_from(); }
 
-                SmallString::from(wk_file_name_into_str(value))
+                SmallString::from(wk_filename_into_str(value))
             }
 // ---- unit U-wk.FileName.deref  <= purl/src/qualifiers/well_known.rs:57 ----
-pub fn wk_file_name_deref<'a>(this: &FileName<'a>) -> (r: &'a str)
+pub fn wk_filename_deref<'a>(this: &FileName<'a>) -> (r: &'a str)
     ensures r@ == this.0@
 {
                 this.0
